@@ -481,6 +481,80 @@ func runC03(c *Ctx) error {
 			c.Sample(info)
 		}
 	}
+	return c03FirstUseStorm(c)
+}
+
+// c03FirstUseStorm: several receivers unseal the very first signed frame of a sender at the same
+// moment (the same flooded frame arriving over several links on a router with one worker per
+// CPU): it must be accepted at most once. This exercises the lazily created per-session replay
+// handler under concurrency (the go/ast obligation C03_single_serialised_handler is the
+// deterministic counterpart).
+func c03FirstUseStorm(c *Ctx) error {
+	a, err := newNode()
+	if err != nil {
+		return err
+	}
+	bID, err := newIdentity()
+	if err != nil {
+		return err
+	}
+	builder := frame.NewFrameBuilder()
+	rounds := c.Pick(400, 4000)
+	for r := 0; r < rounds; r++ {
+		b, err := newNodeWithID(bID)
+		if err != nil {
+			return err
+		}
+		sba, err := b.sessionFor(a)
+		if err != nil {
+			return err
+		}
+		f, err := builder.NewFrameV1(a.id.IP, b.id.IP, frame.RouterPing, nil, []byte{1, 2, 3}, nil)
+		if err != nil {
+			return err
+		}
+		f.SetTTL(0)
+		f.SetSequenceTime(time.Now())
+		if err := f.SignRaw(a.id.PrivateKey); err != nil {
+			return err
+		}
+		f.SetTTL(32)
+		d, _ := f.FrameDataWithMargins(0, 0)
+		data := append([]byte(nil), d...)
+		f.ReturnToPool()
+		const workers = 8
+		start := make(chan struct{})
+		res := make(chan bool, workers)
+		for w := 0; w < workers; w++ {
+			go func() {
+				cp := append([]byte(nil), data...)
+				pf, err := builder.ParseFrame(cp, nil, 0)
+				<-start
+				if err != nil {
+					res <- false
+					return
+				}
+				res <- pf.Unseal(sba) == nil
+			}()
+		}
+		close(start)
+		acc := 0
+		for w := 0; w < workers; w++ {
+			if <-res {
+				acc++
+			}
+		}
+		c.Eval()
+		if acc > 1 {
+			c.Violate(fmt.Sprintf("the same signed frame was accepted %d times by concurrent receivers of one fresh session", acc), "signed-first-use-race", map[string]any{"accepted": acc, "round": r})
+			break
+		}
+		if acc != 1 {
+			c.Violate("a valid first signed frame was accepted by none of the concurrent receivers", "signed-first-use-lost", map[string]any{"round": r})
+			break
+		}
+	}
+	c.Count("first-use-storm")
 	return nil
 }
 
